@@ -171,6 +171,76 @@ CHECKS += [
     ),
 ]
 
+CHECKS += [
+    dict(
+        id="C11",
+        text="For every level count n = 1..8 (thorough 1..12), every built-in contrast with every option value (treatment / SAS with the "
+             "default and each level as base, sum, Helmert x reverse x scale, difference x direction, polynomial with and without scores), "
+             "three label types and both entry points, the reduced and full coding matrices, coefficient matrices, their sparse forms, "
+             "names, drop field and spans-intercept flag are compared with reference matrices derived twice in exact rational arithmetic "
+             "from the R / textbook definitions (closed form and inverse of the hypothesis matrix), including exact rank of [1 | coding], "
+             "zero column sums and K [1|C] = I.  Every data vector of length <= 4 over <= 4 levels plus null plus an out-of-list value is "
+             "encoded through encode_contrasts and, up to length 3, through C(x, contr...) in model_matrix, with explicit and inferred "
+             "level lists, and re-encoded from the recorded state; results equal indicator x reference coding.",
+        design_ref="DESIGN.md section 3 C11; notes/c11.md",
+        note="Trusted: models/contrasts_ref.py (two independent exact derivations that must agree; pinned R output). The polynomial "
+             "column-name prefix and ill-conditioned score vectors are classed unspecified / excluded (float64 limit).",
+    ),
+    dict(
+        id="C12",
+        text="Every sorted multiset of <= 4 (thorough 5) points of a 7-point grid plus nulls and out-of-range values as training vector x "
+             "degree 0..5 x every <= 2-subset of interior grid points (incl. doubled knots) or every df in degree..degree+3 x default / "
+             "explicit bounds x intercept x the 5 extrapolation modes (cubic: natural / cyclic x none / 'center' x df or explicit knots), "
+             "each followed by re-use of the recorded state on follow-up vectors.  Every output row, the recorded knot vector and the "
+             "error behaviour are compared with an independent exact (Fraction) reference: Cox-de Boor on the recorded knots with "
+             "polynomial continuation, and the cardinal natural / periodic interpolating cubic splines from the second-derivative system; "
+             "centring is checked through the constraint map (rank, zero training means, span).",
+        design_ref="DESIGN.md section 3 C12; notes/c12.md",
+        note="Trusted: models/splines_ref.py (self-tested against its defining properties and scipy at start-up). A check of the "
+             "construction on a grid, not a pointwise proof off the grid; the value exactly at the upper bound when a quantile knot "
+             "coincides with it is a convention and classed unspecified.",
+    ),
+    dict(
+        id="C13",
+        text="Every vector of length 2..4 (thorough 5) over {-2, 0, 1, 3, 1e6, 1e-6} with two distinct values through scale / center / "
+             "standardize in all 19 flag / ddof configurations (ndarray, Series, sparse column, and through model_matrix), compared with "
+             "(x - mean)/sd in exact rational arithmetic; every follow-up vector transformed with the recorded state must equal "
+             "(new - mean)/sd of the training data with the state unchanged.  poly of degree 1..3 with a null in every position is compared "
+             "with the exact orthonormal polynomial basis (Q'Q = I, Q'1 = 0, span, NaN exactly in null rows) and new points are evaluated "
+             "with the fitted polynomials.  log / log2 / log10 / exp / exp2 / exp10 are compared with the functions their names denote and "
+             "with their inverse partners, directly and inside formulas.",
+        design_ref="DESIGN.md section 3 C13; notes/c13.md",
+        note="Trusted: models/c13_numeric_ref.py. Tolerances are derived from conditioning (1e-9 x kappa for scale; recurrence growth "
+             "factor for poly); cases whose float64 conditioning is hopeless get shape / null checks only and are counted.",
+    ),
+    dict(
+        id="C16",
+        text="Every constraint expression tree with up to 2 (thorough 3) binary operators over {x, y, z, 1, 2, 0.5} and + - * /, every tree "
+             "with 3 (4) operators over {x, y, 2}, every 'E = E' pair, with minimal, full and redundant parenthesisation, spaced and compact, "
+             "with and without a head minus; every list of up to 2 constraints (and triples from a smaller pool) as comma string, list of "
+             "strings and mapping; under 7 variable namings including reversed order, an unused name, back-quoted names and the column "
+             "names of two materialized specs through ModelSpec.get_linear_constraints - compiled by the real LinearConstraints.from_spec "
+             "and compared coefficient by coefficient with an exact Fraction affine-form evaluator; non-affine specs must be rejected.",
+        design_ref="DESIGN.md section 3 C16; notes/c16.md",
+        note="Trusted: models/affine.py (self-tested against the pinned constraint tests; every rendered string is re-derived from its "
+             "tree). Because the compiled map is affine, coefficient equality settles all x. Adjacent operators such as 'x = -2' and "
+             "specs affine only after cancellation are classed unspecified.",
+    ),
+    dict(
+        id="C20",
+        text="Every ordered list of up to 3 (thorough 4) distinct terms over the 14 products of 1-3 distinct factors of {a, b, c, log(a)}, "
+             "with and without intercept, as a simple formula and as the right-hand side of a two-sided formula, is differentiated by the "
+             "real code with respect to every tuple of up to 2 (3) variables over {a, b, c, d} with repetition and compared term by term "
+             "(count, order, factor order) with an independent symbolic rule; the tuple call is compared with successive calls and with "
+             "ModelSpec(s).differentiate.  For every list of up to 2 (3) terms the derivative is materialized (rank reduction on / off; "
+             "Formula, spec and two-sided paths; three outputs) and each non-zero derivative term's column, located through term_indices, "
+             "must equal the exact finite difference (h = 1 and 1/2) of the original term's column.",
+        design_ref="DESIGN.md section 3 C20; notes/c20.md",
+        note="Only the default use_sympy=False path (sympy is not installed in /venv). A wrt variable inside a function factor (log(a) "
+             "w.r.t. a) is unspecified without sympy and skipped. Trusted: models/calculus_ref.py.",
+    ),
+]
+
 ALL = ["C%02d" % i for i in range(1, 21)]
 _reason = "check not built yet in this revision (work in progress; see DESIGN.md section 3 for the planned bounded-exhaustive check)"
 NOT_APPLICABLE = [dict(property_id=i, reason=_reason) for i in ALL if i not in {c["id"] for c in CHECKS}]
